@@ -671,7 +671,8 @@ def reference_terminator_window(prog, chk, rid):
     dn, d = finds[0]
     fname, ename = d["n"], ends[0]["n"]
     cur = q.no_casts(f.r(q.call_args(f, f.strip(d["init"]))[0]))
-    uses = [c for c in q.calls(f) if (f.nodes[c].get("callee") or "").endswith("String::attach") and fname in f.r(c)]
+    uses = [c for c in q.calls(f) if (f.nodes[c].get("callee") or "").endswith("String::attach") and
+            (fname in f.r(c) or any(fname in q.no_casts(q.xr(f, a_)) or _init_mentions(f, a_, fname) for a_ in q.call_args(f, c)))]      # the length may sit in a local
     lits = [s_.node for s_ in q.stores(f) if s_.rhs is not None and fin.eval_expr(f, s_.rhs, {}) == 38 and "dest" in f.r(s_.lhs)]
     if not uses or not lits:
         raise AnalysisBroken("unescapeString: translation (attach) or the literal fall-back store not found")
@@ -767,3 +768,12 @@ def numeric_references_translated(prog, chk, rid, ts):
                     "Element::toString writes the byte %d of an attribute value as `&#%d;`, but for that value the tests after the scan (%s) keep "
                     "unescapeString from translating it: the value comes back with the six characters of the reference instead of the byte" % (
                         N, N, ", ".join(q.no_casts(un.r(e))[:30] for e in conds[-3:]) or "-"), evals=len(seen) + 1)
+
+
+def _init_mentions(f, node, name):
+    """is `node` a local whose one definition mentions `name`?"""
+    n = f.nodes[f.strip(node)]
+    if n["k"] != "DeclRefExpr" or n["ref"].get("dk") != "local":
+        return False
+    ini = q.single_def(f, n["ref"]["id"], q.local_defs(f))
+    return ini is not None and name in q.no_casts(f.r(ini))
